@@ -19,7 +19,8 @@ quiet_naunet()
 MODULES = ["NaunetProps.C19"]
 THEOREMS = ["Naunet.C19.solve_success_exact", "Naunet.C19.levels_success", "Naunet.C19.substeps_inv",
             "Naunet.C19.fail_logs_initial_state", "Naunet.C19.unrecoverable_fails", "Naunet.C19.reinit_failure_fails",
-            "Naunet.C19.five_levels_then_fail", "Naunet.C19.odeint_budget"]
+            "Naunet.C19.five_levels_then_fail", "Naunet.C19.odeint_budget", "Naunet.C19.levels_unrecoverable",
+            "Naunet.C19.substeps_failed_flag", "Naunet.C19.body_unrecoverable"]
 RULE = ("fault scripts for the mock integrator: per CVode call an outcome (ok | flag in {-1..-4,-6 recoverable; -5,-7,-22,-99 "
         "unrecoverable} with partial progress fraction), per CVodeReInit ok/fail; random scripts plus (thorough) exhaustive "
         "flag sequences over the first calls of the first levels; dt over 1e-3..1e13; odeint: step counts around mxsteps. "
@@ -68,6 +69,17 @@ def gen_scripts(rng, tier):
             cv = [(rng.choice(FLAGS_REC), rng.random()) for _ in range(400)]
         re = [1 if rng.random() < 0.93 else 0 for _ in range(6)]
         scripts.append({"dt": dt, "y0": y0, "cv": cv, "reinit": re, "reset_mx": rng.choice([-1, -1, 500, 3])})
+    # one unrecoverable flag at a chosen later call position, everything after it succeeds: inside level 1 (calls 2..11), and inside
+    # level 2 after a second recoverable failure (calls 4..23)
+    for bad in FLAGS_BAD:
+        for pos in (1, 2, 5, 10):
+            cv = [(rng.choice(FLAGS_REC), 0.5)] + [(0, 1.0)] * 40
+            cv[pos] = (bad, rng.choice([0.0, 0.5]))
+            scripts.append({"dt": 86400.0, "y0": 1.0, "cv": cv, "reinit": [1] * 6, "reset_mx": -1})
+        for pos in (4, 9, 22):
+            cv = [(-1, 0.5), (0, 1.0), (-6 if bad == -5 else -2, 0.25)] + [(0, 1.0)] * 60
+            cv[pos] = (bad, 0.5)
+            scripts.append({"dt": 3.15e7, "y0": 0.0, "cv": cv, "reinit": [1] * 6, "reset_mx": -1})
     if tier == "thorough":
         # exhaustive: outcome of the call in Solve x first call of level 1 x first call of level 2
         opts = [0] + FLAGS_REC + [-5, -7]
@@ -127,8 +139,8 @@ def run(argv):
             chk.violation({"kind": "driver-crash", "backend": b}, f"compiled Solve crashed (rc={r.returncode})", stderr=r.stderr[-800:])
             continue
         for i, (s, line) in enumerate(zip(scripts, lines)):
-            flag, y, lo, hi, logged = line.split()
-            flag = int(flag); y = float(y); lo = float(lo); hi = float(hi); logged = float(logged)
+            flag, y, lo, hi, logged, ncalls = line.split()
+            flag = int(flag); y = float(y); lo = float(lo); hi = float(hi); logged = float(logged); ncalls = int(ncalls)
             nfail = sum(1 for f, _ in s["cv"] if f < 0)
             short = {"dt": s["dt"], "y0": s["y0"], "cv": s["cv"][:12], "n_cv": len(s["cv"]), "reinit": s["reinit"]}
             chk.count(("cv", b, i), nontrivial=nfail > 0)
@@ -147,6 +159,13 @@ def run(argv):
             if s["cv"][0][0] < 0 and s["cv"][0][0] in FLAGS_BAD and flag == 0:
                 chk.violation({"kind": "unrecoverable-reported-success", "backend": b},
                               f"first CVode call failed with unrecoverable flag {s['cv'][0][0]} but Solve returned success", input=short)
+                continue
+            # … at *every* call position: an unrecoverable flag returned by any call that was actually made
+            hit = next((j for j, (f, _) in enumerate(s["cv"][:ncalls]) if f in FLAGS_BAD), None)
+            if hit is not None and flag == 0:
+                chk.violation({"kind": "unrecoverable-reported-success", "backend": b, "position": "later-call"},
+                              f"CVode call {hit + 1} of the {ncalls} calls made returned the unrecoverable flag {s['cv'][hit][0]} but Solve "
+                              f"returned success", input=short, flags_of_calls_made=[f for f, _ in s["cv"][:ncalls]][:60])
                 continue
             if len(s["cv"]) >= 400 and all(f < 0 for f, _ in s["cv"]) and flag == 0:
                 chk.violation({"kind": "all-fail-reported-success", "backend": b}, "every integrator call failed but Solve returned success", input=short)
